@@ -161,10 +161,12 @@ theorem commit_blockBatch_lookups (p : Params) (m : Mem) (b : Block) (db : Block
 /-! ### the chain invariant -/
 
 /-- no hash collision between `b` and what the ledger already holds: a stored block with the hash of `b` is `b`, a
-cached header with that hash is the header of `b` -/
+cached header with that hash is the header of `b`; and the hash of `b` is not the all-zero value that
+`loadHeaderIndexList` treats as "no hash" -/
 def NoColl (s : State) (b : Block) : Prop :=
   (∀ blk, s.dur.blocks.blockAt b.header.hash = some blk → blk = b) ∧
-  (∀ hd ∈ s.mem.cache, hd.hash = b.header.hash → hd = b.header)
+  (∀ hd ∈ s.mem.cache, hd.hash = b.header.hash → hd = b.header) ∧
+  b.header.hash ≠ zeroHash
 
 /-- a header delivered ahead of its block does not collide with a stored block -/
 def NoCollH (s : State) (hd : Header) : Prop :=
@@ -300,7 +302,7 @@ theorem chain_step (g : Block) (s s' : State) (b : Block) (hc : Chain g s)
     · rw [hhb, e5] at hb
       have : blk = b := (Option.some.inj hb).symm
       subst this
-      exact (hnc.2 hd hm' hhb).symm
+      exact (hnc.2.1 hd hm' hhb).symm
     · rw [e6 _ hhb] at hb
       exact hc.cacheOK hd hm' blk hb
 
